@@ -50,6 +50,18 @@ def run(rep, tier, seed, replay):
         tlk = {p: k for p, k, _d in tnodes if k.startswith("l")}
         upaths = [unhx(x[2:]) for x in c.spec.split(",") if x.startswith("u:")]
         through = any(("/" + c.base.lstrip("~") + "/").find("/" + u + "/") >= 0 for u in upaths)
+        # "one error item naming the offending path": an error item never names a node that is not a fault
+        kinds = {p: k for p, k, _d in nodes}
+        canon = lambda p: "/".join(x for x in (p or "").split("/") if x)
+        ckinds = {canon(p): k for p, k in kinds.items()}
+        ckinds["@R"] = "d"
+        # (the root of the walk is exempt: a prefix such as `c/` over a file c is a fault of its own kind)
+        wrong = [p for p, d in errs if p is not None and d > 0 and ckinds.get(canon(p)) in ("d", "f", "lt", "lf")]
+        if wrong:
+            rep.violation("oracle", "an error item names %r, which is readable and not a fault (the offending path is another one)" % wrong[0], c.describe(), impl=c.impl[:400])
+            continue
+        if errs:
+            rep.stats["every error item names a fault (unreadable directory, dangling or re-entrant link)"] += 1
         if lk != tlk or through:
             # a link whose target lies in (or is) an unreadable directory, or a base reached through one, is itself
             # affected by the fault: the readable part has no counterpart for it; held by the correspondence only
